@@ -648,6 +648,7 @@ func init() {
 func runC18(c *Cfg) {
 	r := c.Rep
 	runSpecial(c, "C18", "default-post")
+	runSpecial(c, "C18", "zero-size-pointer-nodes")
 	var cases []*ActCase
 	for _, post := range []string{"", "default", "custom", " ", "\t\n"} {
 		for _, routed := range []bool{false, true} {
